@@ -741,3 +741,62 @@ def m_hint(c, *a):
 @model(r'^(?:std::process::)?(exit|abort)$|^std::process::(exit|abort)$')
 def m_exit(c, *a):
     raise StopPath('process_exit', {'callee': c.callee})
+
+
+@model(r'^(?:std::option::)?Option::<.*>::map_or_else::<')
+def m_option_map_or_else(c, o, d, f):
+    ip = c.ip
+    if variant(ip, o, 'Option') == 'Some':
+        return ip.call_value(f, [payload(o, 'Some')[0]])
+    return ip.call_value(d, [])
+
+
+@model(r'^(?:std::result::)?Result::<.*>::map_or_else::<')
+def m_result_map_or_else(c, o, d, f):
+    ip = c.ip
+    if variant(ip, o, 'Result') == 'Ok':
+        return ip.call_value(f, [payload(o, 'Ok')[0]])
+    return ip.call_value(d, [payload(o, 'Err')[0]])
+
+
+@model(r'^(?:std::option::)?Option::<.*>::(filter)::<')
+def m_option_filter(c, o, f):
+    ip = c.ip
+    if variant(ip, o, 'Option') == 'Some':
+        v = payload(o, 'Some')[0]
+        if ip.branch(ip.call_value(f, [Ptr(Cell(v, 'f'), ())]), 'filter'):
+            return o
+    return none(ip)
+
+
+@model(r'^(?:std::option::)?Option::<.*>::(or)$')
+def m_option_or(c, o, d):
+    ip = c.ip
+    if variant(ip, o, 'Option') == 'Some':
+        return o
+    return d
+
+
+@model(r'^(?:std::option::)?Option::<.*>::(or_else)::<')
+def m_option_or_else(c, o, f):
+    ip = c.ip
+    if variant(ip, o, 'Option') == 'Some':
+        return o
+    return ip.call_value(f, [])
+
+
+@model(r'^(?:std::option::)?Option::<.*>::(insert|get_or_insert)$')
+def m_option_insert(c, p, v):
+    ip = c.ip
+    o = ip.load(p.cell, p.path)
+    if c.m.group(1) == 'insert' or variant(ip, o, 'Option') == 'None':
+        ip.store(p.cell, p.path, some(ip, v))
+    return Ptr(p.cell, p.path + (('v', 'Some'), ('f', 0)))
+
+
+@model(r'^(?:std::option::)?Option::<.*>::(replace)$')
+def m_option_replace(c, p, v):
+    ip = c.ip
+    o = ip.load(p.cell, p.path)
+    ip.store(p.cell, p.path, some(ip, v))
+    return o
